@@ -271,6 +271,9 @@ func c07Step(x *engine.Exec) []engine.Failure {
 			if _, ok := prev.Assets[u.Denom]; !ok && u.V == x.Op.V {
 				x.Cnt.Inc("slash.with_pending_unbonding_of_deleted_asset")
 			}
+			if u.V == x.Op.V && len(prev.Vals[x.Op.V].ValShares) == 0 {
+				x.Cnt.Inc("slash.of_validator_everybody_left_with_pending_unbondings")
+			}
 		}
 		// timing classes
 		for _, u := range ref.Unb {
@@ -308,6 +311,7 @@ func c07Ops(tier string) func(n *engine.Node) []world.Op {
 	return func(n *engine.Node) []world.Op {
 		var ops []world.Op
 		amt := "300"
+		s0 := n.Snap()
 		// D0: undelegations and redelegations across validators and denoms
 		for _, v := range []int{0, 1, 2} {
 			ops = append(ops, world.Op{K: world.KUndelegate, D: 0, V: v, Denom: "aaa", Amt: amt, Class: ClsUser})
@@ -325,6 +329,15 @@ func c07Ops(tier string) func(n *engine.Node) []world.Op {
 		if tier == "thorough" {
 			ops = append(ops, world.Op{K: world.KUndelegate, D: 0, V: 0, Denom: "aaa", Amt: "7", Class: ClsUser})
 			ops = append(ops, world.Op{K: world.KRedelegateAll, D: 0, V: 0, V2: 1, Denom: "aaa", Class: ClsUser})
+		}
+		// everybody can leave a validator (here V2: D0 and D1, one denom): its pending unbondings/redelegations are still slashed
+		for _, d := range []int{0, 1} {
+			if _, ok := s0.FindPos(d, 2, "aaa"); ok {
+				ops = append(ops, world.Op{K: world.KUndelegateAll, D: d, V: 2, Denom: "aaa", Class: ClsUser})
+			}
+		}
+		if _, ok := s0.FindPos(1, 2, "aaa"); ok {
+			ops = append(ops, world.Op{K: world.KRedelegateAll, D: 1, V: 2, V2: 0, Denom: "aaa", Class: ClsUser})
 		}
 		// governance can delete an asset whose stake is fully withdrawn while its unbondings are still pending
 		s := n.Snap()
@@ -363,7 +376,7 @@ func init() {
 					Expand: func(x *engine.Exec) bool {
 						return !x.Res.Rejected && !(x.Op.K == world.KSlash && x.Next.Used[ClsSlash] >= budgets[ClsSlash])
 					},
-					Required: []string{"slash.hit_pending_unbonding", "slash.hit_pending_redelegation", "redelegation.destination_checked", "redelegation.fan_in_same_block", "slash.at_completion_instant", "slash.after_completion_before_payout", "slash.with_pending_unbonding_of_deleted_asset"},
+					Required: []string{"slash.hit_pending_unbonding", "slash.hit_pending_redelegation", "redelegation.destination_checked", "redelegation.fan_in_same_block", "slash.at_completion_instant", "slash.after_completion_before_payout", "slash.with_pending_unbonding_of_deleted_asset", "slash.of_validator_everybody_left_with_pending_unbondings"},
 				}
 			}
 			if tier == "thorough" {
